@@ -383,8 +383,10 @@ func (t *tracer) boundaryCases(g *gen, round int) {
 	}
 	v := variants[round%len(variants)]
 	targets := []int{253, 254, 255, 256}
-	if !v.forInt && (round%len(variants) == 2 || !t.quick) { // one 64 KiB family per quick run, all Data variants in thorough
+	if !v.forInt && !t.quick { // 64 KiB boundary: every Data variant in thorough,
 		targets = append(targets, 65536, 65537, 65538)
+	} else if round%len(variants) == 2 { // one case per quick run (a 64 KiB packet costs the model replay about a second per read)
+		targets = append(targets, 65536)
 	}
 	nm := enc.Name{enc.NewStringComponent(8, "c12"), enc.NewStringComponent(8, "boundary")}
 	for _, target := range targets {
